@@ -135,9 +135,33 @@ def gen_data(kind, N, D, k, seed):
             if N >= 2:
                 a, b = rng.sample(range(N), 2)
                 X[a] = list(X[b])
+    elif kind == "clusters":              # a few tight, well separated clusters; WHO is in which cluster is irregular
+        lab = cluster_labels(N, seed)
+        u = [rng.gauss(0, 1) for _ in range(D)]
+        nu = math.sqrt(sum(a * a for a in u)) or 1.0
+        u = [a / nu for a in u]
+        pos = [0.0, 1.0, 2.5]
+        ctr = [[pos[c] * u[j] + 0.05 * rng.gauss(0, 1) for j in range(D)] for c in range(3)]
+        X = [[ctr[lab[i]][j] + CLUSTER_SIGMA * rng.gauss(0, 1) for j in range(D)] for i in range(N)]
     else:
         raise ValueError(kind)
     return X
+
+
+CLUSTER_SIGMA = 1e-3
+
+
+def cluster_labels(N, seed):
+    """cluster of each sample of the `clusters` kind: three clusters of (almost) equal size, assigned to the sample
+    indices in an irregular order (never sorted by cluster), deterministic in (N, seed)"""
+    rng = random.Random("cluster-labels/%d/%d" % (N, seed))
+    lab = [i % 3 for i in range(N)]
+    for _ in range(20):
+        rng.shuffle(lab)
+        runs = sum(1 for i in range(1, N) if lab[i] != lab[i - 1])
+        if runs >= min(N - 1, 5):
+            break
+    return lab
 
 
 # ----------------------------------------------------------------------------- cases
@@ -273,6 +297,7 @@ def run_chunk(ctx, exe, cases, wd, env):
     out = {}
     nbinfo = {}
     others = {}
+    dumps = {}
     pending = list(cases)
     guard = 0
     while pending and guard < len(cases) + 5:
@@ -306,6 +331,22 @@ def run_chunk(ctx, exe, cases, wd, env):
                     tid = cur
                 out[tid] = {"cls": "hang", "detail": "in-process watchdog (%d s) fired" % wd}
                 done.add(tid)
+                continue
+            if line.startswith("E ") or line.startswith("P "):
+                f = line.split()
+                try:
+                    eid = int(f[1])
+                    if f[0] == "E":
+                        rws, cls_ = int(f[2]), int(f[3])
+                        vals = [float.fromhex(x) for x in f[4:]]
+                        if len(vals) == rws * cls_:
+                            dumps.setdefault(eid, {})["E"] = [vals[i * cls_:(i + 1) * cls_] for i in range(rws)]
+                    elif f[2] == "BADLEN":
+                        dumps.setdefault(eid, {})["P"] = None
+                    else:
+                        dumps.setdefault(eid, {})["P"] = (float.fromhex(f[2]), float.fromhex(f[3]))
+                except (ValueError, IndexError):
+                    pass
                 continue
             qm = QRESULT_RE.match(line)
             if qm:                       # par mode: what another thread of the application's region saw
@@ -348,6 +389,8 @@ def run_chunk(ctx, exe, cases, wd, env):
             out[c["id"]]["nb"] = nbinfo[c["id"]]
         if c["id"] in others:
             out[c["id"]]["others"] = others[c["id"]]
+        if c["id"] in dumps and out[c["id"]]["cls"] == "ok":
+            out[c["id"]].update(dumps[c["id"]])
     return out
 
 
@@ -518,6 +561,161 @@ def finiteness_interior(c):
     return scalars_ok(c)
 
 
+# ----------------------------------------------------------------------------- the clause "row i describes input sample i"
+def _dist(a, b):
+    return math.sqrt(sum((x - y) * (x - y) for x, y in zip(a, b)))
+
+
+def row_cluster_metrics(E, lab):
+    """-> (i, intra, inter) for the sample i with the smallest margin: intra = distance in the returned rows from row i
+    to the farthest row of a sample of ITS cluster, inter = to the nearest row of a sample of another cluster"""
+    worst = None
+    N = len(E)
+    for i in range(N):
+        intra = max([_dist(E[i], E[j]) for j in range(N) if j != i and lab[j] == lab[i]] or [0.0])
+        inter = min([_dist(E[i], E[j]) for j in range(N) if lab[j] != lab[i]] or [math.inf])
+        if worst is None or inter - intra < worst[2] - worst[1]:
+            worst = (i, intra, inter)
+    return worst
+
+
+def row_nn_metrics(E, lab):
+    """-> (i, j) = a sample whose NEAREST returned row belongs to a sample of another cluster, or None"""
+    N = len(E)
+    for i in range(N):
+        j = min((x for x in range(N) if x != i), key=lambda x: _dist(E[i], E[x]), default=None)
+        if j is not None and lab[j] != lab[i]:
+            return (i, j)
+    return None
+
+
+def row_isometry_metrics(E, X):
+    """-> (i, j, dev, scale): the pair of samples whose distance in the returned rows differs most from their distance
+    in the input; scale = the largest input distance"""
+    worst, scale = (0, 0, 0.0), 0.0
+    N = len(E)
+    for i in range(N):
+        for j in range(i + 1, N):
+            a, b = _dist(X[i], X[j]), _dist(E[i], E[j])
+            scale = max(scale, a)
+            if abs(a - b) > worst[2]:
+                worst = (i, j, abs(a - b))
+    return worst + (scale,)
+
+
+# Methods on which the cluster oracle is REQUIRED (a violation otherwise) on the `clusters` kind, and why it must hold there
+# (three clusters of width 1e-3 whose centres lie within 0.05 of a line at 0, 1, 2.5: the between-cluster scatter is the
+# dominant structure by a factor > 100 in every direction that counts):
+ROW_CLUSTER_WHY = {
+    "passthru": "the rows are the samples",
+    "pca": "orthogonal projection on the top principal directions; the first one is the line through the centres up to "
+           "O(0.05), so centres stay >= 0.9 apart while a projection never expands the 1e-3 clusters",
+    "ra": "linear map with a Gaussian matrix orthonormalised: within-cluster differences (1e-3) shrink or stay, the centre "
+          "differences keep a component unless the centre line is within 1e-3 rad of the kernel (probability < 1e-5)",
+    "mds": "classical scaling reproduces the distances of the best rank-d approximation of the centred Gram matrix, whose "
+           "leading direction is the centre line",
+    "kpca": "linear kernel: the same Gram matrix as MDS",
+    "lmds": "as MDS for the landmarks (they hit >= 2 clusters: more landmarks than a cluster has members) + distance-based "
+            "triangulation of the rest, exact in the landmark span",
+    "isomap": "geodesics >= Euclidean distances between clusters and <= 2 hops of 1e-3 inside a cluster, then MDS",
+    "lisomap": "as Isomap, on the landmark columns",
+    "fa": "rows are a linear image (posterior means) of the centred samples",
+    "spe": "GLOBAL strategy only: stochastic descent on the stress over ALL pairs (300 sweeps) keeps 1e-3 pairs together "
+           "and unit pairs apart (observed margin >= 20x over 64 requests); the local strategy sees neighbour pairs only",
+    "la": "heat-kernel graph: weights inside a cluster ~1, between clusters <= exp(-1/width): the first non-trivial "
+          "generalized eigenvectors are constant on clusters up to O(1e-3) and separate them",
+    "dm": "as LaplacianEigenmaps (diffusion coordinates of a nearly block-diagonal Markov matrix)",
+}
+# Methods on which it cannot be expected, and why
+ROW_CLUSTER_EXCLUDED = {
+    "klle": "reconstruction weights of a sample from neighbours that coincide up to 1e-3 are not unique; the bottom "
+            "eigenvectors of (I-W)^T (I-W) on three near-singular blocks are an arbitrary mixture",
+    "kltsa": "local tangent spaces of 1e-3 noise balls are arbitrary; the alignment null space is (numerically) "
+             "degenerate over the three blocks",
+    "hlle": "as KLTSA, with second-order terms estimated from noise",
+    "npe": "linear version of LLE: same degenerate weights",
+    "lltsa": "linear version of LTSA: same degenerate tangent spaces",
+    "lpp": "the generalized eigenvectors with the SMALLEST eigenvalues are directions in which neighbours differ least "
+           "relative to the variance: with 3 features these are noise directions across the centre line, where the "
+           "clusters overlap (observed on /repo HEAD); LPP is covered by the projection oracle instead",
+    "tsne": "random initialisation + early exaggeration + 1000 fixed iterations: clusters regularly split into sub-clumps "
+            "that interleave (observed on /repo HEAD for target_dimension 1 always, for 2 at N >= 20); the t-SNE "
+            "affinities are property C17's",
+    "ms": "ManifoldSculpting keeps the first d coordinates and squishes the others with a stochastic hill climb; the "
+          "centre line need not lie in the kept coordinates",
+}
+ROW_ISOMETRIC = {"mds", "kpca", "pca", "lmds", "isomap", "lisomap"}
+
+
+def row_isometry_expected(c):
+    """requests on which the returned rows must reproduce ALL pairwise distances of the input (up to rounding): classical
+    scaling of Euclidean distances with target_dimension >= D, dense solver"""
+    m, N, D, d, k, p = c["m"], c["N"], c["D"], c["d"], c["k"], c["p"]
+    if m not in ROW_ISOMETRIC or c["em"] != "dense" or d < D or c["kind"] not in ("clusters", "generic"):
+        return False
+    if m == "pca":
+        return d == D
+    if m in ("isomap", "lisomap") and k != N - 1:
+        return False                      # complete neighbourhood graph: geodesic = Euclidean distance
+    if m == "lisomap":
+        return p.get("lr", 0.5) == 1.0    # the B B^T formulation is classical scaling only when every sample is a landmark
+    if m == "lmds":
+        return int(N * p.get("lr", 0.5)) >= D + 1
+    return True
+
+
+def row_cluster_expected(c):
+    m, N, D, d, p = c["m"], c["N"], c["D"], c["d"], c["p"]
+    if c["kind"] != "clusters" or m not in ROW_CLUSTER_WHY or N < 6:
+        return False
+    if m in EIGEN and c["em"] != "dense":
+        return False
+    if m == "spe" and not p.get("speg", 1):
+        return False
+    if m in ("lmds", "lisomap"):
+        L = int(N * p.get("lr", 0.5))
+        if L <= (N + 2) // 3 and not d >= D:
+            return False                  # all landmarks may sit in one cluster: only the full-dimensional case is exact
+    return scalars_ok(c)
+
+
+def judge_rows(ctx, c, real, where, stats):
+    """the clause `row i describes input sample i` on the dumped matrix. -> True if a violation was recorded"""
+    E = real.get("E")
+    if not E or real.get("nonfinite") or len(E) != c["N"]:
+        return False
+    X = data_of(c)
+    rs = stats.setdefault("rows", {"cluster": {}, "isometry": {}, "projection": {}, "not_expected": {}})
+    if "P" in real:
+        rs["projection"][c["m"]] = rs["projection"].get(c["m"], 0) + 1
+        P = real["P"]
+        if P is None or not (P[0] <= 1e-7 * max(P[1], 1.0)):
+            ctx.violation(pub(c), "row i of the returned matrix is not the returned projecting function applied to sample i: "
+                                  "max deviation %s, largest entry %s [%s]" % (P and P[0], P and P[1], where))
+            return True
+    if row_isometry_expected(c):
+        rs["isometry"][c["m"]] = rs["isometry"].get(c["m"], 0) + 1
+        i, j, dev, scale = row_isometry_metrics(E, X)
+        if not (dev <= 1e-6 * max(scale, 1e-300)):
+            ctx.violation(pub(c), "rows do not describe the samples in input order: |row %d - row %d| differs from "
+                                  "|sample %d - sample %d| by %.3g (largest distance %.3g) although %s with target_dimension "
+                                  ">= D reproduces every pairwise distance [%s]" % (i, j, i, j, dev, scale, c["m"], where))
+            return True
+    if row_cluster_expected(c):
+        rs["cluster"][c["m"]] = rs["cluster"].get(c["m"], 0) + 1
+        lab = cluster_labels(c["N"], c["seed"])
+        i, intra, inter = row_cluster_metrics(E, lab)
+        if not (intra < inter):
+            ctx.violation(pub(c), "rows do not describe the samples in input order: the samples form three clusters of width "
+                                  "1e-3 at mutual distance >= 0.9 (cluster of sample i: %s); row %d is at %.3g from a row of "
+                                  "its own cluster but at %.3g from a row of another cluster [%s]" % (
+                                      "".join(str(x) for x in lab), i, intra, inter, where))
+            return True
+    elif c["kind"] == "clusters":
+        rs["not_expected"][c["m"]] = rs["not_expected"].get(c["m"], 0) + 1
+    return False
+
+
 def new_stats():
     return {"f7_seen": 0, "f7_silent": 0, "nonfinite_cases": 0, "numeric_exc": 0, "nonfinite_by_method": {},
             "finite_checked": {}}
@@ -576,6 +774,8 @@ def judge(ctx, c, real, model, build, stats, thread=0):
                 return
         if finiteness_interior(c) and build == "san":
             stats["finite_checked"][c["m"]] = stats["finite_checked"].get(c["m"], 0) + 1
+        if "E" in real and judge_rows(ctx, c, real, where, stats):
+            return
         if model["cls"] == "shape":
             return
         if model["cls"] == "crash" and SITE_FINDING.get(model["site"]) == "F7":
@@ -893,6 +1093,70 @@ def deep_cases(rng, start_id, quick):
         c["d"], c["k"] = (2 if m == "spe" else 1), 4
         out.append(c)
         cid += 1
+    return out
+
+
+def row_cases(rng, start_id, quick):
+    """the clause `row i describes input sample i`: every method on the `clusters` kind (irregular membership pattern),
+    the returned matrix dumped; swept over the special configurations that select fast paths (landmark_ratio = 1 and
+    3 / N, num_neighbors = N - 1, target_dimension = 1 / D / the maximum N - 1, every neighbour search, both solvers)
+    and over the forms of the index range (0 .. N-1; N-1 .. 0; odd columns of a wider matrix with decoy columns)"""
+    out = []
+    cid = start_id
+    state = {"ix": 0}
+
+    def add(m, N=12, D=3, d=2, k=None, **over):
+        nonlocal cid
+        ix = over.pop("ix", None)
+        if ix is None:
+            ix = state["ix"] % 3
+            state["ix"] += 1
+        kind = over.pop("kind", "clusters")
+        if m in ("la", "lpp", "dm"):
+            over.setdefault("width", 0.25)      # between-cluster weights exp(-1 / 0.25) and below: nearly block diagonal
+        if m == "spe":
+            over.setdefault("maxit", 300)
+        c = interior_case(rng, cid, m, N=N, D=D, kind=kind, seed=1 + (cid % 5), **over)
+        c["d"] = d
+        if k is not None:
+            c["k"] = k
+        elif m == "hlle":
+            c["k"] = max(c["k"], 2 + d + d * (d + 1) // 2)
+        c["p"]["dump"] = 1
+        if ix:
+            c["p"]["ix"] = ix
+        if m == "tsne":
+            c["p"]["theta"] = 0.5 if d == 2 else 0.0
+        out.append(c)
+        cid += 1
+
+    Ns = [12] if quick else [12, 9, 30]
+    for N in Ns:
+        for m in METHODS:
+            uses = m in USES_NB or m == "spe"
+            lrs = [1.0, 0.5] if m in ("lmds", "lisomap") else [None]
+            for lr in lrs:
+                over = {} if lr is None else {"lr": lr}
+                add(m, N=N, d=2, **over)                                   # the plain request
+                add(m, N=N, d=1, **over)                                   # target_dimension = 1
+                if uses:
+                    ov = dict(over, speg=0) if m == "spe" else dict(over)
+                    add(m, N=N, d=2, k=N - 1, **ov)                         # complete neighbourhood graph
+                    for nm in ("vptree", "covertree"):
+                        add(m, N=N, d=2, nm=nm, **ov)
+                if m in EIGEN and m not in GENERALIZED:
+                    add(m, N=N, d=2, em="randomized", **over)
+            # full-dimensional requests: the isometric methods must reproduce every distance
+            if m in ROW_ISOMETRIC:
+                for ix in (0, 1, 2):
+                    for lr in ([1.0, 0.75, 3.0 / N] if m == "lmds" else [1.0] if m == "lisomap" else [None]):
+                        over = {} if lr is None else {"lr": lr}
+                        if lr is not None and lr < 0.5:
+                            over["kind"] = "generic"      # three landmarks inside one 1e-3 cluster would be ill-conditioned
+                        add(m, N=N, D=2, d=2, k=N - 1, ix=ix, **over)
+                add(m, N=N, D=1, d=1, k=N - 1, **({"lr": 1.0} if m in ("lmds", "lisomap") else {}))
+                if m in ("mds", "kpca", "isomap", "lmds"):
+                    add(m, N=N, D=2, d=N - 1, k=N - 1, **({"lr": 1.0} if m == "lmds" else {}))   # the maximum
     return out
 
 
